@@ -16,9 +16,12 @@ H("selftest_seq", "SELF", "seq", ["harness/selftest_seq.cc"], what="core self-te
 
 # --- C11 ---------------------------------------------------------------------------------------
 H("c11_circbuf", "C11", "sched", ["harness/c11_circbuf.cc"], cxxflags=["-fno-access-control"],
-  args={"quick": ["--k=2"], "thorough": ["--k=4", "--deadline=1200"]},
+  args={"quick": ["--k=2"], "thorough": ["--k=4", "--deadline=800"]},
   what="real CircularBuffer/AtomicUniquePtr: 1..3 producers x 1..2 Add (both overloads) vs one consumer (4 programs), all interleavings within the preemption bound, spurious weak-CAS failures",
   design_ref="5/C11")
+H("c11_circbuf_big", "C11", "sched", ["harness/c11_circbuf.cc"], cxxflags=["-fno-access-control"],
+  args={"quick": ["--set=big", "--k=1", "--c=1", "--deadline=25"], "thorough": ["--set=big", "--k=2", "--c=1", "--deadline=500"]},
+  what="the larger CircularBuffer configurations (capacity 3 or 3 producers) with a smaller preemption bound", design_ref="5/C11")
 H("c11_spinlock", "C11", "sched", ["harness/c11_spinlock.cc"], args={"quick": ["--k=3"], "thorough": ["--k=5", "--deadline=400"]},
   what="real SpinLockMutex: 2..3 threads x programs over lock/try_lock/unlock, occupancy <= 1 in every state, every lock() returns (deadlock / livelock detection)",
   design_ref="5/C11")
